@@ -92,6 +92,9 @@ func (j *jval) build() (*lisp.LVal, error) {
 	case "str":
 		b, err := base64.StdEncoding.DecodeString(j.B64)
 		return lisp.String(string(b)), err
+	case "sym":
+		b, err := base64.StdEncoding.DecodeString(j.B64)
+		return lisp.Symbol(string(b)), err
 	case "arr", "list":
 		cells := make([]*lisp.LVal, len(j.C))
 		for i, c := range j.C {
